@@ -863,9 +863,31 @@ def np_logical(f):
         if b is None:
             y = args[1].get_bool()
             return Val.of_arr(arr_map1(lambda x: f(x, y), a, "bool"))
+        broadcast_check(eng, st, a, b, node)
         return Val.of_arr(arr_map2(lambda x, y: f(x, y), a, b, "bool"))
 
     return g
+
+
+def broadcast_check(eng, st, a, b, node):
+    """Opt-in safety semantics (contract.shape_checks): combining two 1-D arrays elementwise whose lengths differ (and neither
+    is 1) raises ValueError inside NumPy ('operands could not be broadcast together') - an internal error, never a declared one."""
+    cc = getattr(eng, "cur_contract", None)
+    if cc is None or not getattr(cc, "shape_checks", False) or eng.inline_depth != 0 or eng.spec is not None or eng.func is None or eng.func.qual != cc.qual:
+        return
+    if a.ndim != 1 or b.ndim != 1:
+        return
+    from .symexec import Exit
+    la, lb = a.shape[0], b.shape[0]
+    cond = z3.simplify(z3.And(la != lb, la != 1, lb != 1))
+    if z3.is_false(cond):
+        return
+    xs = st.copy()
+    xs.pc = z3.And(st.pc, cond)
+    ex = Exit("raise", xs, exc="ValueError", where=eng.where(node))
+    ex.tag = "internal[broadcast]"
+    eng.push_exit(ex)
+    st.pc = z3.And(st.pc, z3.Not(cond))
 
 
 def np_abs(eng, st, args, kw, node):
@@ -1238,6 +1260,18 @@ def np_argmin(eng, st, args, kw, node, is_min=True):
     c = ctx()
     k = z3.Int(c.fresh("argmin" if is_min else "argmax"))
     n = f.shape[0]
+    cc = getattr(eng, "cur_contract", None)
+    if cc is not None and getattr(cc, "empty_reduce_checks", False) and eng.inline_depth == 0 and eng.spec is None and eng.func is not None and eng.func.qual == cc.qual:
+        # opt-in safety semantics: arg-reduction of an empty array raises ValueError inside NumPy (an internal error, never a declared one)
+        from .symexec import Exit
+        cond = z3.simplify(n <= 0)
+        if not z3.is_false(cond):
+            xs = st.copy()
+            xs.pc = z3.And(st.pc, cond)
+            ex = Exit("raise", xs, exc="ValueError", where=eng.where(node))
+            ex.tag = "internal[empty-argmin]"
+            eng.push_exit(ex)
+            st.pc = z3.And(st.pc, z3.Not(cond))
     c.add_fact(z3.Implies(n > 0, z3.And(k >= 0, k < n)))
     i = z3.Int(c.fresh("q"))
     c.binders.append([i])
